@@ -259,7 +259,19 @@ C20_INST = {
 
 
 def c20(tier, seed, replay):
-    return run_simple('C20', tier, seed, 'sampled', 'MCSampledLFU', 'SampledLFUTrace', C20_INST[tier])
+    t0 = time.time()
+    parts = []
+    run_simple('C20', tier, seed, 'sampled', 'MCSampledLFU', 'SampledLFUTrace', C20_INST[tier], collect=parts)
+    # every constructor carries the budget and the sample size it was given (Ctor.tla, Shape of the sampled_* calls)
+    work = vlib.Work('C20-ctor')
+    try:
+        j, vs = ctor_grid('std', work, vlib.build_harness('std'), prop='C20')
+        parts.append(([j], vs))
+    finally:
+        work.cleanup()
+    jobs = [j for js, _ in parts for j in js]
+    viols = [v for _, vs in parts for v in vs]
+    return finish_simple('C20', tier, seed, jobs, viols, t0, 'model_checking')
 
 
 # --------------------------------------------------------------------------- C05 (composite)
